@@ -56,7 +56,7 @@ fn show(n: &Num) -> String {
 }
 
 fn wire_fail(rule: &'static str, w: &Wire, detail: String) -> Failure {
-    Failure::new(rule, format!("[{} -> {}] {}", if w.producer == Producer::ToWriter { "to_writer" } else { "to_vec" }, w.consumer.name(), detail))
+    Failure::new(rule, format!("[{} -> {}] {}", match w.producer { Producer::ToWriter => "to_writer", Producer::ToVec => "to_vec", Producer::ToWriterPretty => "to_writer_pretty" }, w.consumer.name(), detail))
         .fact("scenario", "wire")
         .fact("consumer", w.consumer.name())
         .fact("route", if w.consumer == Consumer::ViaValue { "value" } else { "direct" })
@@ -374,7 +374,8 @@ impl C17 {
                 FrameSrc::Typed(spec) => {
                     let frame = Frame::from_spec(spec);
                     // fault-free serialization: the reference bytes
-                    let reference = catch(|| serde_json::to_vec(&frame));
+                    let pretty = w.producer == Producer::ToWriterPretty;
+                    let reference = catch(|| if pretty { serde_json::to_vec_pretty(&frame) } else { serde_json::to_vec(&frame) });
                     obs.execs += 1;
                     let reference = match reference {
                         Err(m) => {
@@ -397,6 +398,7 @@ impl C17 {
                     let res = match w.producer {
                         Producer::ToWriter => catch(|| serde_json::to_writer(&mut writer, &frame).map_err(|e| e.to_string())),
                         Producer::ToVec => Ok(writer.write_all(&reference).map_err(|e| e.to_string())),
+                        Producer::ToWriterPretty => catch(|| serde_json::to_writer_pretty(&mut writer, &frame).map_err(|e| e.to_string())),
                     };
                     obs.execs += 1;
                     let hard_fired = writer.stats.hard_errors > hard_before;
@@ -925,7 +927,7 @@ impl Property for C17 {
                         });
                     }
                 }
-                Trace::Wire(Wire { frames, producer: if rng.chance(2, 3) { Producer::ToWriter } else { Producer::ToVec }, consumer, wplan, rplan, corrupt })
+                Trace::Wire(Wire { frames, producer: *rng.pick(&[Producer::ToWriter, Producer::ToWriter, Producer::ToWriter, Producer::ToVec, Producer::ToVec, Producer::ToWriterPretty]), consumer, wplan, rplan, corrupt })
             }
         }
     }
